@@ -132,14 +132,22 @@ fn remove_unused_sub_elements(module: &mut Module) {
         .compu_vtab_range
         .retain(|item| used_compu_tabs.contains(&item.name));
 
-    // remove all unused UNITs
-    for unit in &module.unit {
-        if let Some(ref_unit) = &unit.ref_unit {
-            used_units.insert(ref_unit.unit.clone());
+    // remove all unused UNITs; a UNIT that is only referenced by a removed UNIT is also unused
+    loop {
+        let mut used_by_units = HashSet::<String>::new();
+        for unit in &module.unit {
+            if let Some(ref_unit) = &unit.ref_unit {
+                used_by_units.insert(ref_unit.unit.clone());
+            }
+        }
+        let count = module.unit.len();
+        module
+            .unit
+            .retain(|item| used_units.contains(&item.name) || used_by_units.contains(&item.name));
+        if module.unit.len() == count {
+            break;
         }
     }
-
-    module.unit.retain(|item| used_units.contains(&item.name));
 }
 
 fn remove_invalid_sub_element_refs(module: &mut Module) {
